@@ -64,6 +64,38 @@ def tables() -> list[dict]:
     return out
 
 
+def keyword_parameters(ctx: Ctx) -> None:
+    """constructor parameters whose NAME is a keyword: a pydantic field `class_` with alias "class" takes the keyword argument
+    `class` (legal through **kwargs only); the loader must pass it without writing `class=` into the generated call"""
+    import keyword
+
+    import pydantic
+
+    from adaptix import DebugTrail, Retort
+    n = 0
+    for kw in ("class", "from", "lambda", "import", "None", "async", "match"):
+        for with_default in (False, True):
+            ns = {"pydantic": pydantic}
+            exec(f"class M(pydantic.BaseModel):\n    a: int\n    {kw}_: str = pydantic.Field({'\'dflt\', ' if with_default else ''}alias={kw!r})\n", ns)  # noqa: S102
+            model = ns["M"]
+            for dt in DebugTrail:
+                n += 1
+                try:
+                    r = Retort(debug_trail=dt)
+                    obj = r.load({"a": 1, kw: "x"}, model)
+                    back = r.dump(obj)
+                    ok = getattr(obj, kw + "_") == "x" and obj.a == 1 and back == {"a": 1, kw: "x"}
+                    if with_default:
+                        ok = ok and getattr(r.load({"a": 1}, model), kw + "_") == "dflt"
+                    if not ok:
+                        ctx.violation({"what": "keyword_parameter_wrong_result", "via": "pydantic_alias"}, f"pydantic alias {kw!r} ({dt.name}): loaded {obj!r}, dumped {back!r}", {"alias": kw})
+                except Exception as e:  # noqa: BLE001
+                    ctx.violation({"what": "keyword_parameter_breaks_generation", "via": "pydantic_alias", "exc": type(e).__name__},
+                                  f"pydantic field {kw}_ with alias {kw!r} (soft or hard keyword: {keyword.iskeyword(kw)}), {dt.name}: {type(e).__name__}: {str(e)[:150]}",
+                                  {"alias": kw, "with_default": with_default})
+    ctx.replayed += n
+
+
 def run(ctx: Ctx) -> None:
     builtins.CANARY = _canary
     ctx.rule = ("programs = the Layout.tla slices A (map x style x trim), C (extra policies), D (lists) and E (omit_default), each "
@@ -87,6 +119,7 @@ def run(ctx: Ctx) -> None:
     ctx.extra["canary_calls"] = len(CANARY_CALLS)
     from .c19_conv import run_converter_names
     run_converter_names(ctx)
+    keyword_parameters(ctx)
     ctx.exhaustive = True
 
 
